@@ -5,7 +5,9 @@
 //!
 //! * `growable` / `fixed`  — `sozu_command_lib::buffer::{growable,fixed}::Buffer` with the call
 //!   pattern of `Channel` (C11) against a `Vec<u8>` FIFO model;
-//! * `pool`                — `sozu_lib::pool::{Pool, Checkout}` window operations against a model;
+//! * `pool`                — `sozu_lib::pool::{Pool, Checkout}` window operations against a model.
+//!   NOT runnable under Miri: `poule` reserves its arena with `mmap(PROT_NONE)`, which Miri does
+//!   not support; run.sh executes this target natively (optionally AddressSanitizer-instrumented);
 //! * `h2parser`            — `mux::parser::{preface, frame_header, frame_body}` with the oracle of
 //!   the native C15 frame-decoder lab;
 //! * `proxy`               — `proxy_protocol::parser::parse_v2_header` against an independent parse;
@@ -17,6 +19,8 @@
 //!   `ORACLE-FAIL target=.. signature=.. detail=..`                 exit 1
 //! Undefined behaviour is reported by Miri itself (non-zero exit, "Undefined Behavior" on stderr);
 //! a panic inside sozu code ends the process with the panic message (exit 101).
+
+#![allow(dead_code)]
 
 mod buffers;
 mod h2parser;
@@ -123,18 +127,20 @@ pub struct Shard {
     pub shard: u64,
     pub nshards: u64,
     pub thorough: bool,
+    /// multiplies the per-shard operation budget (native runs of targets Miri cannot execute)
+    pub scale: u64,
 }
 
 impl Shard {
     pub fn pick(&self, quick: u64, thorough: u64) -> u64 {
-        if self.thorough { thorough } else { quick }
+        (if self.thorough { thorough } else { quick }) * self.scale
     }
 }
 
 fn main() {
     let args: Vec<String> = std::env::args().collect();
     if args.len() < 6 {
-        eprintln!("usage: miri-lab <growable|fixed|pool|h2parser|proxy|slices-growable|slices-fixed|slices-pool> <seed> <shard> <nshards> <quick|thorough>");
+        eprintln!("usage: miri-lab <growable|fixed|pool|h2parser|proxy|slices-growable|slices-fixed|slices-pool> <seed> <shard> <nshards> <quick|thorough> [scale]");
         std::process::exit(2);
     }
     let target: &'static str = Box::leak(args[1].clone().into_boxed_str());
@@ -144,9 +150,12 @@ fn main() {
         shard: args[3].parse().unwrap_or(0),
         nshards: args[4].parse::<u64>().unwrap_or(1).max(1),
         thorough: args[5] == "thorough",
+        scale: args.get(6).and_then(|s| s.parse::<u64>().ok()).unwrap_or(1).max(1),
     };
     silence_sozu_logger();
     let (ops, extra) = match target {
+        // build/infrastructure probe for run.sh
+        "noop" => (0, String::new()),
         "growable" => buffers::run_growable(&sh),
         "fixed" => buffers::run_fixed(&sh),
         "pool" => pool_lab::run(&sh),
